@@ -3,6 +3,7 @@ import Balm.Impl.Strict
 import Balm.Impl.Solver
 import Balm.Impl.Asp
 import Balm.DepthAlgo
+import Balm.Impl.CandModel
 /-!
 # `balmdriver` – line protocol between the Python harness and the Lean model
 
@@ -120,6 +121,52 @@ def parseDump (n : Nat) (toks : List String) : Option (Dump n) := do
   pure { nodes := nodes, edges := edges }
 
 def verdict (o : Option String) : String := match o with | none => "OK" | some r => "FAIL " ++ r
+
+def parseFins (n : Nat) (s : String) : List (Fin n) :=
+  if s == "-" then [] else (s.splitOn ",").filterMap fun x => x.toNat?.bind fun k => if h : k < n then some ⟨k, h⟩ else none
+
+/-- `CAND node greedy threshold limit nfvs retained0 keys0 ; avoid… ; ret/limit/states …` -/
+def handleCand (S : Session) (toks : List String) : String :=
+  let n := S.n
+  let N := S.ctx.N
+  let head := toks.takeWhile (· ≠ ";")
+  let rest1 := (toks.dropWhile (· ≠ ";")).drop 1
+  let avoidT := rest1.takeWhile (· ≠ ";")
+  let transT := (rest1.dropWhile (· ≠ ";")).drop 1
+  match head with
+  | [nodeS, greedyS, thrS, limS, nfvsS, ret0S, keys0S] =>
+    match parseSpace n nodeS, thrS.toNat?, limS.toNat?, parseSpace n ret0S, parseSpaces n avoidT with
+    | some node, some thr, some lim, some ret0, some avoid =>
+      let nfvs := parseFins n nfvsS
+      let keys0 := parseFins n keys0S
+      let entries := transT.filterMap fun t => match t.splitOn "/" with
+        | [r, l, sts] => (do
+            let r ← parseSpace n r
+            let l ← l.toNat?
+            let ss ← (if sts == "" then some [] else (sts.splitOn ",").mapM (parseState n))
+            pure (r, l, ss))
+        | _ => none
+      if entries.length != transT.length then "bad" else
+      -- validate the transcript against the specification of the solver
+      let badEntry := entries.find? fun (r, l, ss) =>
+        let full := reducedFixedPoints N r node avoid
+        !(ss.all full.contains) || ss.eraseDups.length != ss.length || ss.length != min (max 1 l) full.length
+      match badEntry with
+      | some (r, l, _) => s!"ORACLE-BAD {showSpace r}/{l}"
+      | none =>
+        let heur := heuristicRetained N node nfvs avoid
+        if !nfvs.isEmpty && heur != ret0 then s!"HEUR-DIFF {showSpace heur}" else
+        let solve (r : Space n) (l : Nat) : List (State n) :=
+          match entries.find? fun e => e.1 == r && e.2.1 == l with
+          | some e => e.2.2
+          | none => []
+        let (out, calls) := candidatesModel solve { threshold := thr, limit := lim } node avoid.isEmpty nfvs ret0 keys0 (greedyS == "1")
+        let cs := String.intercalate " " (calls.map fun c => s!"{showSpace c.1}/{c.2}")
+        match out with
+        | .err => "err | " ++ cs
+        | .ok l => "ok " ++ String.intercalate "," (l.map showState) ++ " | " ++ cs
+    | _, _, _, _, _ => "bad"
+  | _ => "bad"
 
 def handle (S : Session) (toks : List String) : Session × String :=
   let n := S.n
@@ -284,6 +331,7 @@ def handle (S : Session) (toks : List String) : Session × String :=
         ([], (fun _ => 0), [])
       (S, String.intercalate " | " run.2.2)
     | _, _ => bad
+  | "CAND" :: rest => (S, handleCand S rest)
   | "ADOPT" :: rest => match parseDump n rest with
     | some d => ({ S with diag := d.toDiag }, "OK")
     | none => bad
